@@ -136,6 +136,7 @@ type checkResult struct {
 	assumed    map[string]bool
 	notes      map[string]bool
 	missingFns []string
+	retried    int
 }
 
 func runProperty(prop, tier string, timeout int) *checkResult {
@@ -315,6 +316,56 @@ func runProperty(prop, tier string, timeout int) *checkResult {
 		}
 	}
 	wg.Wait()
+	// Second chance for everything left undecided: a solver that ran out of time while the machine was busy must not
+	// turn into an alarm. The undecided obligations are solved again, few at a time, with three times the time limit.
+	var again []*unitRun
+	type job struct {
+		ur *unitRun
+		o  *Obl
+	}
+	var jobs []job
+	knownOpen := map[string]bool{}
+	for _, f := range readFindings() {
+		if f.Status == "known" && f.Property == prop {
+			knownOpen[f.Obligation] = true
+		}
+	}
+	for _, ur := range res.units {
+		for _, o := range ur.obls {
+			if o.OptionalCover || knownOpen[o.Name] {
+				continue
+			}
+			if o.Status == "unknown" || (o.Status == "failed" && o.Candidate) || (o.Cover && o.Status != "discharged") {
+				jobs = append(jobs, job{ur, o})
+			}
+		}
+	}
+	_ = again
+	if len(jobs) > 0 {
+		res.retried = len(jobs)
+		save := res.solver.timeout
+		res.solver.timeout = 3 * save
+		lim := make(chan struct{}, 4)
+		var wg2 sync.WaitGroup
+		for _, j := range jobs {
+			wg2.Add(1)
+			go func(j job) {
+				defer wg2.Done()
+				lim <- struct{}{}
+				defer func() { <-lim }()
+				prev := *j.o
+				j.o.Status, j.o.Output, j.o.Model, j.o.Solver, j.o.Time, j.o.Candidate = "", "", "", "", 0, false
+				res.solver.solve(j.ur.un, j.o)
+				if j.o.Status != "discharged" && prev.Status == "failed" && j.o.Status != "failed" {
+					// keep the candidate counterexample of the first pass
+					j.o.Status, j.o.Output, j.o.Model, j.o.Solver, j.o.Candidate, j.o.SmtFile = prev.Status, prev.Output, prev.Model, prev.Solver, prev.Candidate, prev.SmtFile
+				}
+				j.o.Output += " [second pass, time limit x3]"
+			}(j)
+		}
+		wg2.Wait()
+		res.solver.timeout = save
+	}
 	res.wall = time.Since(start).Seconds()
 	return res
 }
@@ -621,6 +672,7 @@ func cmdCheck(args []string) int {
 			"undecided_new_safety":      undecided,
 			"bounded":                   []string{},
 			"solver_timeout_s":          to,
+			"second_pass_obligations":   res.retried,
 			"all_solvers_must_agree":    tier == "thorough",
 			"explanation":               "weakest-precondition VCs generated from the go/ssa form of /repo's working tree against //@ contracts; one SMT query per named obligation, raced on z3 4.8.12, z3 5.1.0, cvc5 1.0 (two configurations)",
 		},
